@@ -41,6 +41,9 @@ type World struct {
 	funcDecl map[*types.Func]*ast.FuncDecl
 	anonLit  map[token.Pos]*ast.FuncLit
 	pkgOfPos map[*token.File]*packages.Package
+	pwCache  []*ssa.Function // position writers (modes of a split writer included), see positionWriterFuncs
+	pwMode   map[*ssa.Function]bool
+	pwCore   map[*ssa.Function]*ssa.Function
 }
 
 func loadWorld(repo string, overlay map[string][]byte, extraEnv ...string) (*World, error) {
